@@ -139,7 +139,7 @@ def _run_instance(job):
                     out["validation_errors"].append(dict(vals=vals, symbolic=sym_obs,
                                                          concrete=_jsonable(obs)))
 
-        kw = dict(seed=opts["seed"], max_paths=opts.get("max_paths", 200000),
+        kw = dict(seed=opts["seed"], max_paths=opts.get("max_paths", 200000), p_cross=opts.get("p_cross", 0.0),
                   deadline=opts.get("deadline"), on_violation=on_violation, on_path_end=on_path_end)
         if opts.get("profile") and idx == 0:
             st, fns = _profile_functions(lambda: core.explore(h, **kw))
@@ -180,7 +180,8 @@ def run_check(modname, tier, seed, argv=()):
     insts = mod.instances(tier, seed)
     opts = dict(seed=seed, deadline=hard, profile=True,
                 p_validate=getattr(mod, "P_VALIDATE", {"quick": 0.02, "thorough": 0.01})[tier],
-                max_paths=getattr(mod, "MAX_PATHS", 300000))
+                max_paths=getattr(mod, "MAX_PATHS", 300000),
+                p_cross=float(os.environ.get("VERIF_CVC5_P", getattr(mod, "P_CROSS", {"quick": 0.0005, "thorough": 0.002})[tier])))
     # `ext` instances must not outlive the soft budget by much: they get a short deadline and
     # are reported as incomplete (never as passed) when they hit it
     ext_opts = dict(opts, deadline=t0 + budget * 1.25 + 10)
@@ -239,7 +240,7 @@ def run_check(modname, tier, seed, argv=()):
 
 def finish(mod, prop, tier, seed, t0, insts, results, skipped, known, pre):
     tot = dict(paths=0, decisions=0, solver_calls=0, solver_s=0.0, aborted=0, infeasible=0,
-               obligations=0)
+               obligations=0, cvc5_crosschecked=0, cvc5_inconclusive=0)
     labels, witness, functions = set(), set(), set()
     abort_reasons = {}
     incomplete, crashes, val_errors = [], [], []
@@ -330,6 +331,7 @@ def finish(mod, prop, tier, seed, t0, insts, results, skipped, known, pre):
             witnesses_reached=sorted(witness),
             queries=tot["solver_calls"], solver_s=round(tot["solver_s"], 2),
             aborted_paths=tot["aborted"], infeasible_paths=tot["infeasible"],
+            cvc5_crosschecked=tot["cvc5_crosschecked"], cvc5_no_answer=tot["cvc5_inconclusive"],
             functions_executed=sorted(functions),
             bounds=getattr(mod, "BOUNDS", {}).get(tier, getattr(mod, "BOUNDS", {})),
             stubs=getattr(mod, "STUBS", []),
